@@ -83,18 +83,37 @@ func checkC04(c *fw.Ctx) {
 		c.Check(sameSet(got, want), "4 siblings", short+" strips the keys added by other servers", c.P.Pos(ctors[short].Pos()), strings.Join(sortedSet(got), ","), "stripped keys "+strings.Join(sortedSet(got), ",")+": "+diffSets(got, want))
 	}
 	// 3. hash writer / checker agree
+	checkHashProjection(c)
+}
+
+// checkHashProjection: the content hash is written and checked over the same projection of the
+// event: the canonical JSON of the event minus {signatures, unsigned, hashes} (shared with C03:
+// a built event must pass its own hash check).
+func checkHashProjection(c *fw.Ctx) {
 	want := setOf("signatures", "unsigned", "hashes")
 	for _, spec := range []string{"addContentHashesToEvent", "checkEventContentHash"} {
-		if fn := mustFunc(c, "3 hash-projection", spec); fn != nil {
-			got, nonConst := removedKeys(fn)
-			c.Check(nonConst == 0 && sameSet(got, want), "3 hash-projection", spec+" hashes the event minus {signatures, unsigned, hashes}", c.P.Pos(fn.Pos()), strings.Join(sortedSet(got), ","), "excluded members are "+strings.Join(sortedSet(got), ",")+": "+diffSets(got, want))
+		fn := mustFunc(c, "3 hash-projection", spec)
+		if fn == nil {
+			continue
+		}
+		got, nonConst := removedKeys(fn)
+		construct := spec + " hashes the event minus {signatures, unsigned, hashes}"
+		if nonConst > 0 || len(got) == 0 {
+			c.Undecided("3 hash-projection", construct, fmt.Sprintf("%d removal(s) not resolved to constant names, %d resolved", nonConst, len(got)))
+		} else {
+			c.Check(sameSet(got, want), "3 hash-projection", construct, c.P.Pos(fn.Pos()), strings.Join(sortedSet(got), ","), "excluded members are "+strings.Join(sortedSet(got), ",")+": "+diffSets(got, want))
+		}
+	}
+	// the writer hashes canonical JSON (the checker is handed canonical bytes by its callers: rule 2)
+	if fn := c.P.Func("addContentHashesToEvent"); fn != nil {
+		for _, dc := range deepCallsTo(fn, fw.NameIs("crypto/sha256.Sum256")) {
+			c.CheckDerives(dc.Call.Common().Args[0], dc.Fr, fw.FlowSpec{IsSource: fw.IsResultOf(fw.NameIs("gmsl.CanonicalJSON", "gmsl.CanonicalJSONAssumeValid"), 0), All: true, Use: dc.Call.(ssa.Instruction)}, "3 hash-projection", "addContentHashesToEvent hashes the canonical form", c.P.Pos(dc.Call.Pos()), "", "the bytes that are hashed are not the result of CanonicalJSON: the checker hashes the canonical form, so events whose JSON differs from its canonical form (escapes such as \\u003c, non-shortest \\u escapes) fail their own hash check after building")
 		}
 	}
 	if fn := c.P.Func("checkEventContentHash"); fn != nil {
 		c.CheckGate("3 hash-projection", fn, "checkEventContentHash", fw.GuardCallBool("bytes.Equal(computed, claimed)", fw.NameIs("bytes.Equal"), true), fw.ErrNilSuccess(fn, fw.ErrIndex(fn), nil))
-		for _, call := range fw.CallsTo(fn, false, fw.NameIs("crypto/sha256.Sum256")) {
-			ok := fw.DerivesFrom(call.Common().Args[0], fw.FlowSpec{IsSource: func(v ssa.Value) bool { return isParam(v, fn, 0) }, Through: fw.ThroughNames(map[string][]int{"github.com/tidwall/sjson.DeleteBytes": {0}}), All: true})
-			c.Check(ok, "3 hash-projection", "checkEventContentHash hashes its input minus the excluded members", c.P.Pos(call.Pos()), "", "the hashed bytes do not derive from the input event")
+		for _, dc := range deepCallsTo(fn, fw.NameIs("crypto/sha256.Sum256")) {
+			c.CheckDerives(dc.Call.Common().Args[0], dc.Fr, fw.FlowSpec{IsSourceIn: isRootParam(fn, 0), Through: fw.ThroughNames(map[string][]int{"github.com/tidwall/sjson.DeleteBytes": {0}}), All: true, Use: dc.Call.(ssa.Instruction)}, "3 hash-projection", "checkEventContentHash hashes its input minus the excluded members", c.P.Pos(dc.Call.Pos()), "", "the hashed bytes do not derive from the input event")
 		}
 	}
 }
@@ -146,31 +165,47 @@ func checkUntrustedCtor(c *fw.Ctx, short string, fn *ssa.Function) {
 		nret++
 		val := r.Results[0]
 		construct := short + ": on hash mismatch only the redacted form is returned"
-		// case 1: the re-parse
-		if cc, idx := fw.CallOf(fw.Unwrap(val)); cc != nil && idx == 0 && strings.HasSuffix(fw.CalleeName(cc), ".NewEventFromTrustedJSON") {
+		// case 1: the re-parse (possibly produced by an unexported helper)
+		reparse := fw.Derives3(val, fw.FlowSpec{All: true, Use: r, IsSourceIn: func(v ssa.Value, fr *fw.Frame) bool {
+			cc, idx := fw.CallOf(v)
+			if cc == nil || idx > 0 || !strings.HasSuffix(fw.CalleeName(cc), ".NewEventFromTrustedJSON") {
+				return false
+			}
 			args := cc.Common().Args
-			okSrc := fw.DerivesFrom(args[len(args)-2], fw.FlowSpec{IsSource: redactRes, Through: fw.ThroughNames(map[string][]int{"gmsl.CanonicalJSONAssumeValid": {0}, "gmsl.CanonicalJSON": {0}}), All: true})
-			flag, isC := args[len(args)-1].(*ssa.Const)
-			okFlag := isC && flag.Value != nil && flag.Value.String() == "true"
-			c.Check(okSrc && okFlag, rule, construct, c.P.Pos(fw.InstrPos(r)), "re-parse of the redaction, redacted=true", fmt.Sprintf("the event re-parsed after a hash mismatch is not the redaction (derives=%v) marked redacted (flag=%v)", okSrc, okFlag))
+			flag, _ := rootOf(args[len(args)-1], fr)
+			cst, isC := flag.(*ssa.Const)
+			okFlag := isC && cst.Value != nil && cst.Value.String() == "true"
+			okSrc := fw.Derives3In(args[len(args)-2], fr, fw.FlowSpec{IsSource: redactRes, Through: fw.ThroughNames(map[string][]int{"gmsl.CanonicalJSONAssumeValid": {0}, "gmsl.CanonicalJSON": {0}}), All: true}) == fw.Yes
+			if !(okSrc && okFlag) {
+				c.Fail(rule, construct, c.P.Pos(cc.Pos()), fmt.Sprintf("the event re-parsed after a hash mismatch is not the redaction (derives=%v) marked redacted (flag=%v)", okSrc, okFlag))
+			}
+			return true
+		}})
+		if reparse == fw.Yes {
+			c.Ok(rule, construct, c.P.Pos(fw.InstrPos(r)), "re-parse of the redaction, redacted=true")
 			continue
 		}
 		// case 2: the receiver itself: only with redacted=true stored on every path from the failure edge
 		if fw.PathAvoiding(failBlock, redStores, r) {
+			if reparse == fw.Unknown {
+				c.Undecided(rule, construct, "the value returned after a content-hash mismatch could not be traced")
+				continue
+			}
 			c.Fail(rule, construct, c.P.Pos(fw.InstrPos(r)), "after a content-hash mismatch the parsed event can be returned without having been marked redacted (no `redacted = true` on the path from the mismatch to this return)")
 			continue
 		}
 		// and only if the redaction was computed and compared equal (the bytes.Equal edge)
-		eq := fw.CallsTo(fn, false, fw.NameIs("bytes.Equal"))
 		okEq := false
+		eq := deepCallsTo(fn, fw.NameIs("bytes.Equal"))
 		for _, e := range eq {
-			a0 := fw.DerivesFrom(e.Common().Args[0], fw.FlowSpec{IsSource: redactRes, Through: fw.ThroughNames(map[string][]int{"gmsl.CanonicalJSONAssumeValid": {0}}), All: true})
-			a1 := fw.DerivesFrom(e.Common().Args[1], fw.FlowSpec{IsSource: redactRes, Through: fw.ThroughNames(map[string][]int{"gmsl.CanonicalJSONAssumeValid": {0}}), All: true})
+			sp := fw.FlowSpec{IsSource: redactRes, Through: fw.ThroughNames(map[string][]int{"gmsl.CanonicalJSONAssumeValid": {0}}), All: true}
+			a0 := fw.DerivesFromIn(e.Call.Common().Args[0], e.Fr, sp)
+			a1 := fw.DerivesFromIn(e.Call.Common().Args[1], e.Fr, sp)
 			if a0 != a1 {
 				okEq = true
 			}
 		}
-		c.Check(okEq, rule, construct, c.P.Pos(fw.InstrPos(r)), "receiver returned only when its JSON equals its redaction", "the unredacted receiver is returned after a hash mismatch without comparing it with its redaction")
+		c.Expect(okEq, rule, construct, c.P.Pos(fw.InstrPos(r)), "receiver returned only when its JSON equals its redaction", "no comparison of the event with its redaction was recognised before the receiver is returned after a hash mismatch")
 	}
 	c.Min(rule+" "+short+" returns after mismatch", nret, 2)
 
